@@ -244,7 +244,7 @@ Definition step (s : state) (x : ext) : sres :=
                  | Some (vs, st) =>
                      match vs with
                      | [] => Fault FPanicEqual0       (* values[0] index panic *)
-                     | first :: _ => Next (bump (with_stack s ((if x_bool x then first else vnil) :: st)))
+                     | _ :: _ => Next (bump (with_stack s ((if x_bool x then vok else vnil) :: st)))
                      end
                  | None => Fault FStackUnderflow
                  end
